@@ -354,6 +354,15 @@ def main():
                 if m:
                     violations.append((m, line, dict(build=bname, impl=res, trace=tr,
                                                      model=(model_rows[i] if model_rows else None)), exe, env))
+                # behaviour that depends on the build configuration and that the model states per build (not a property
+                # oracle: a difference is a broken correspondence)
+                if P.get("build_expect"):
+                    want = P["build_expect"](op, kv, bname)
+                    if want is not None:
+                        stats["compared_results"] += 1
+                        if want != cres:
+                            mismatches.append((f"configuration model mismatch [{bname}]: impl={res} expected={want}", line))
+                        continue
                 # correspondence with the model
                 if model_rows is not None:
                     mres, mtr = model_rows[i]
